@@ -41,6 +41,10 @@ def run_driver(exe, lines):
     return out[:len(lines)]
 
 
+def _run_chunk(job):
+    return run_driver(*job)
+
+
 def boundary_values(rng, thorough):
     vals = []
     n = 4000 if thorough else 300
@@ -122,13 +126,14 @@ def main():
                 rep.violation("value-does-not-survive-wrap-unwrap", cls, {"type": T, "bytes": hx, "observed": out})
         # handle behaviours
         nh = 0
+        scripts = []
         for log in hlogs:
             lines, expect = ["H new 1", "H new 2"], [None, None]
             ids = {"o1": 1, "o2": 2}
             for st in log:
                 o = ids[st["obj"]]
-                if st["op"] == "wrap":
-                    lines.append("H wrap %d" % o)
+                if st["op"] in ("wrap", "wrapvirtual"):
+                    lines.append("H %s %d" % (st["op"], o))
                     expect.append("h %d count %d" % (st["h"], st["count"]))
                 elif st["op"] == "unwrap":
                     lines.append("H unwrap %d" % st["h"])
@@ -141,14 +146,23 @@ def main():
                 elif st["op"] == "drop":
                     lines.append("H drop %d" % o)
                     expect.append("count %d" % st["count"])
-            outs = run_driver(exe, lines)
-            nh += 1
-            for ln, want, got in zip(lines, expect, outs):
-                if want is None:
-                    continue
-                if not got.startswith(want):
-                    rep.violation("handle-protocol-differs-from-model", "", {"behaviour": log, "command": ln, "expected": want, "observed": got})
-                    break
+            lines.append("H reset 0")
+            expect.append("reset live 0")          # nothing outlives its last handle and owner
+            scripts.append((log, lines, expect))
+        # many behaviours per driver process (the driver is reset in between), processes in parallel
+        chunks = [scripts[k:k + 400] for k in range(0, len(scripts), 400)]
+        outs_per_chunk = common.pmap(_run_chunk, [(exe, [ln for _l, lines, _e in ch for ln in lines]) for ch in chunks], chunksize=1)
+        for ch, outs in zip(chunks, outs_per_chunk):
+            pos = 0
+            for log, lines, expect in ch:
+                nh += 1
+                for ln, want, got in zip(lines, expect, outs[pos:pos + len(lines)]):
+                    if want is None:
+                        continue
+                    if not got.startswith(want):
+                        rep.violation("handle-protocol-differs-from-model", "", {"behaviour": log, "command": ln, "expected": want, "observed": got})
+                        break
+                pos += len(lines)
     finally:
         shutil.rmtree(tmp, ignore_errors=True)
     rep.count("traces_validated_against_impl", len(cases) + len(wcases) + nh)
